@@ -404,7 +404,8 @@ type verifC16SM struct {
 }
 
 func (sm *verifC16SM) fail(rt *rapid.T, format string, args ...any) {
-	rt.Fatalf("%s\nhistory:\n%s", fmt.Sprintf(format, args...), strings.Join(sm.log, "\n"))
+	// history first: drivers show the tail of the output, the verdict must be in it
+	rt.Fatalf("history:\n%s\n%s", strings.Join(sm.log, "\n"), fmt.Sprintf(format, args...))
 }
 
 func verifC16RowKey(o verifC16Op) string {
